@@ -523,6 +523,19 @@ func c08Run(t *testing.T, c *evid.Collector) {
 			}
 		}
 	}
+	// bodies beyond any plausible in-memory buffering threshold (1 MiB, 4 MiB): a rejected large
+	// upload must leave the stored object alone just like a small one
+	for _, k := range kinds {
+		for _, n := range []int{1<<20 + 4097, evid.Scale(0, 4<<20+1)} {
+			if n == 0 {
+				continue
+			}
+			for _, kf := range [][2]string{{"put", "md5-wrong"}, {"put", "short-body"}, {"put", "reader-fails"}, {"put", "none"}, {"chunked", "md5-wrong"}, {"chunked", "short-body"},
+				{"chunked", "decoded-len-smaller"}, {"chunked", "decoded-len-larger"}, {"part", "md5-wrong"}, {"part", "short-body"}} {
+				all = append(all, c08Case{Backend: k, Prior: "present", Kind: kf[0], Fault: kf[1], Body: bodySpec{N: n, Seed: 11}, K: n - 7})
+			}
+		}
+	}
 	for i, cs := range all {
 		if i%evid.Shards() != evid.Shard() {
 			continue
